@@ -42,6 +42,11 @@ REQUIRED = [
     "DaeVerif.C13.Props.ep_dead_and_closed_are_final",
     "DaeVerif.C13.Props.ep_never_handed_out_again",
     "DaeVerif.C13.Props.ep_stale_generation_not_handed_out",
+    "DaeVerif.C13.Props.ep_handed_out_is_open",
+    "DaeVerif.C13.Props.ep_index_holds_only_open_endpoints",
+    "DaeVerif.C13.Props.late_registration_leaks",
+    "DaeVerif.C13.Props.ep_transport_end_retires_riders",
+    "DaeVerif.C13.Props.ep_register_on_ended_transport_retires",
     "DaeVerif.C13.Props.ep_retire_spec",
     "DaeVerif.C13.Props.ep_transport_closed_once_with_endpoint",
     "DaeVerif.C13.Props.ep_close_releases_once",
@@ -54,6 +59,22 @@ REQUIRED = [
 STREAMS = ["c13_tq", "c13_trk", "c13_krn", "c13_drn", "c13_key", "c13_ep", "c13_epc", "c13_lock", "c13_hp", "c13_ib"]
 HARNESS = ["control/c13_test.go", "control/c13_seq_test.go", "control/c13_ep_test.go", "control/c13_hp_test.go"]
 RESET = {"c13_tq": "tq reset", "c13_trk": "trk reset", "c13_krn": "krn reset", "c13_drn": "drn reset", "c13_ep": "ep reset", "c13_epc": "ep reset", "c13_lock": "epc reset", "c13_hp": "hp reset", "c13_ib": "ib reset"}
+
+
+# generator floors (quick tier; thorough is far above): a run that does not reach these input classes is not
+# evidence -> exit 2
+FLOORS = {
+    "tq.digest.overflow>256": 100, "tq.overflow.sliceShrunk": 1, "tq.digest.claimed": 500,
+    "tq.stop.convoy.afterClaimCAS": 200, "tq.stop.acquire.beforeCompareAndDelete": 2, "tq.stop.acquire.slowBeforeLoadRefs": 50,
+    "tq.auto.recv": 20, "tq.schedules.overflowSized": 5, "tq.schedules.volume": 2,
+    "trk.retain.blocked": 20, "trk.finalize.withWaiters": 15, "trk.transfer": 80,
+    "krn.release.lastOwner": 100, "krn.release.sharedTupleSurvives": 15, "krn.transfer.shared": 15, "krn.transfer.distinct": 15,
+    "ep.goc.hit": 300, "ep.goc.err-failed": 40, "ep.split.inval": 100, "ep.split.inval.opAfterBump": 100,
+    "ep.split.create": 80, "ep.split.create.invalInside": 80, "ep.split.janitor": 30, "ep.split.janitor.opBeforeClose": 30,
+    "ep.write.err.fail": 40, "ep.reply": 200, "ep.track": 100,
+    "hp.outcome.reused": 200, "hp.outcome.dialled": 200, "hp.pkt.withWriteFailures": 100, "hp.kill": 30,
+    "ib.take": 80, "ib.read": 200, "key.scope.controlPlaneRouting": 300,
+}
 
 
 def segment(ops, impl, lineno, reset_prefix):
@@ -115,6 +136,7 @@ def ep_oracle(ctx, ops, impl):
     """implementation-side: no transport is ever closed twice; after the final quiet period every dialled
     endpoint is closed exactly once, the pool is empty, no drain ticket and no tracked tuple is left."""
     n_seq = 0
+    leak_reported = [False]
     bounds = [i for i, o in enumerate(ops) if o.startswith("ep reset")] + [len(ops)]
     for a, b in zip(bounds, bounds[1:]):
         n_seq += 1
@@ -126,6 +148,21 @@ def ep_oracle(ctx, ops, impl):
                     ctx.report("endpoint pool (real code): a transport was closed more than once: " + im[:300],
                                {"stream": "c13_ep", "sequence": [f"{x}  =>  {y}" for x, y in zip(ops[a:b], impl[a:b])][:2000]})
                     return n_seq
+        if not leak_reported[0]:
+            for o, im in zip(ops[a:b], impl[a:b]):
+                m = o == "ep st" and re.search(r" reg=(\S+) eps=(.*)$", im)
+                if not m or m.group(1) == "-":
+                    continue
+                regs = set(m.group(1).split(","))
+                closed = {x.split(":")[0] for x in m.group(2).split(" ") if re.match(r"\d+:f\dd\dc[1-9]", x)}
+                if regs & closed:
+                    leak_reported[0] = True
+                    ctx.cov["ep_closed_endpoint_left_registered"] = True
+                    ctx.report("endpoint pool (real code): a closed endpoint is (still) in its dialer's bucket — it was registered "
+                               f"after somebody closed it and is never unregistered: endpoint(s) {sorted(regs & closed)} in {im[:300]}",
+                               {"stream": "c13_ep", "sequence": [f"{x}  =>  {y}" for x, y in zip(ops[a:b], impl[a:b])][:400]},
+                               key="c13-closed-endpoint-registered-after-close")
+                    break
         if last_st and ops[b - 2].startswith("ep adv 130000"):
             bad = None
             if not last_st.startswith("pool=- "):
@@ -230,6 +267,11 @@ def run(ctx):
 
     stats = json.load(open(os.path.join(ctx.out, "c13.stats.json")))
     ctx.cov["input_distribution"] = stats["counters"]
+    if not os.environ.get("VERIF_C13_ONLY"):
+        low = {k: (stats["counters"].get(k, 0), v) for k, v in FLOORS.items() if stats["counters"].get(k, 0) < v}
+        if low:
+            ctx.say("GENERATOR-BELOW-FLOOR (reached, required):", low)
+            return 2
     ctx.cov["ops_per_stream"] = per_stream
     def some(name, pred, n):
         p = os.path.join(ctx.out, name + ".ops")
